@@ -33,7 +33,12 @@ func runC03(c *Ctx, r *Report) {
 	r.Doc("R-C03.11", "a reopened log linearises with the comparator it was configured with")
 	optionForwarding(c, r, "R-C03.11", append(constructorLoaderSpecs(), constructorLogSpecs()...), "SortFn")
 	r.Doc("R-C03.12", "the loops of the linearisation (pushing every predecessor of a popped entry) process every element")
-	loopsComplete(c, r, "R-C03.12", func(fn *Fn) bool { return rootNamed(fn, "traverse", "values", "Values") || inPkgs(c.P, fn, "entry/sorting") }, "a predecessor is never pushed on the stack: its whole branch is missing from Values()")
+	loopsComplete(c, r, "R-C03.12", func(fn *Fn) bool {
+		return rootNamed(fn, "traverse", "values", "Values") || inPkgs(c.P, fn, "entry/sorting")
+	}, "a predecessor is never pushed on the stack: its whole branch is missing from Values()")
+	r.Doc("R-C03.13", "causal order rests on clocks: every appended entry's time exceeds every head's time (adopted from C04), and the heads the walk starts from depend on all four inputs of the merge (adopted from C01)")
+	importRules(c, r, "C04", []string{"R-C04.2"}, "R-C03.13")
+	mergedHeadsDeps(c, r, "R-C03.13", p.FuncI("", "IPFSLog", "Join"))
 	pureMerge(c, r, "R-C03.8")
 	{
 		join := p.FuncI("", "IPFSLog", "Join")
